@@ -517,20 +517,33 @@ func grammarXSSStream(r *rng, tier string) *inputSet {
 		if r.coin(1, 3) {
 			v = nulInsideNames(r, v)
 		}
-		if k := strings.Index(asciiLower(v), "javascript:"); k >= 0 && r.coin(1, 2) {
+		for _, sch := range []string{"javascript:", "vbscript:", "data:", "view-source:"} {
+			k := strings.Index(asciiLower(v), sch)
+			if k < 0 || !r.coin(1, 2) {
+				continue
+			}
 			var b strings.Builder
-			for j := 0; j < len("javascript:"); j++ {
+			for j := 0; j < len(sch); j++ {
 				e := encodeByte(r, v[k+j])
 				b.WriteString(e)
 				if strings.HasPrefix(e, "&#") && e[len(e)-1] != ';' {
 					b.WriteString(";")
 				}
+				if r.coin(1, 6) { // NUL / LF inside the scheme, literal or encoded
+					b.WriteString([]string{"\x00", "&#0;", "&#x0A;", "&#10;", "&#x000;"}[r.intn(5)])
+				}
 			}
-			lead := []string{"", " ", "\x01", "\t\n", "\x7f", "\x80"}[r.intn(6)]
-			if strings.ContainsAny(lead, " \t\n") && !strings.ContainsAny(v[k-1:k], "'\"") {
+			quoted := strings.ContainsAny(v[k-1:k], "'\"")
+			lead := []string{"", " ", "\x01", "\t\n", "\x7f", "\x80", "\x00\x00", "\x1f\xff"}[r.intn(8)]
+			if strings.ContainsAny(lead, " \t\n") && !quoted {
 				lead = ""
 			}
-			v = v[:k] + lead + b.String() + v[k+len("javascript:"):]
+			enc := b.String()
+			if !quoted {
+				enc = strings.ReplaceAll(enc, "\x00", "&#0;") // a literal NUL is fine, keep some: only LF literal would end the value
+			}
+			v = v[:k] + lead + enc + v[k+len(sch):]
+			break
 		}
 		s.add("beyond-core", v)
 	}
